@@ -61,7 +61,7 @@ def demo(path):
 
 
 def main():
-    names = sys.argv[1:] or sorted(CHECKS)
+    names = sys.argv[1:] or sorted(d for d in os.listdir(SEEDED) if os.path.isdir(os.path.join(SEEDED, d)))
     if sh("git -C /repo status --porcelain --untracked-files=no").stdout.strip():
         print("/repo not clean")
         return 9
@@ -75,7 +75,8 @@ def main():
                 "what_it_needs_to_manifest": needs(notes), "repo_head": head, "checks_run": {}, "note": NOTES.get(name, "")}
         applies = sh(f"git -C /repo apply --check {patch}").returncode == 0
         meta["applies_to_repo_head"] = applies
-        if not applies or not CHECKS.get(name):
+        checks = CHECKS[name] if name in CHECKS else [name.split("-")[0]]
+        if not applies or not checks:
             meta["status"] = "superseded" if not applies else "not run"
             json.dump(meta, open(os.path.join(d, "meta.json"), "w"), indent=1)
             rows.append((name, "-", "-", meta["status"], meta["note"][:120]))
@@ -84,7 +85,7 @@ def main():
         try:
             if meta["demonstration"]:
                 meta["demo_exit_with_patch"] = demo(os.path.join(d, "demo.py"))
-            for cid in CHECKS[name]:
+            for cid in checks:
                 t0 = time.time()
                 r = sh(f"cd {ROOT} && VERIF_SEED=0 ./check {cid} --tier quick")
                 viol = [l for l in r.stdout.splitlines() if l.startswith("VIOLATION")]
@@ -103,7 +104,7 @@ def main():
         meta["caught_by"] = caught
         meta["status"] = "caught" if caught else "missed"
         json.dump(meta, open(os.path.join(d, "meta.json"), "w"), indent=1)
-        rows.append((name, f"{meta.get('demo_exit_with_patch')}/{meta.get('demo_exit_without_patch')}", ",".join(CHECKS[name]), ",".join(caught) or "MISSED",
+        rows.append((name, f"{meta.get('demo_exit_with_patch')}/{meta.get('demo_exit_without_patch')}", ",".join(checks), ",".join(caught) or "MISSED",
                      (meta["checks_run"][caught[0]]["first_violation"] if caught else "")[:140]))
         print(rows[-1], flush=True)
     sh(f"git -C {ROOT} checkout -- evidence")
